@@ -56,7 +56,7 @@ OTHER_CMDS = {
     "rs": ["nesting", "srp", "magic-numbers", "unwrap-abuse", "clone-abuse", "blocking-async"],
 }
 OTHER_CMDS["js"] = OTHER_CMDS["ts"]
-FAM_CMD = dict(seeds.FAMILY_CMD, srploc="srp", decoy="magic-numbers", filler=None)
+FAM_CMD = dict(seeds.FAMILY_CMD, srploc="srp", decoy="magic-numbers", cloneuse="clone-abuse", filler=None)
 RUN_LEN = 5  # statements in a planted duplicate run (seeds.dry_set default)
 REF = re.compile(r"([\w./-]+\.(?:py|ts|js|rs)):(\d+)(?:-(\d+))?")
 
@@ -65,7 +65,7 @@ REF = re.compile(r"([\w./-]+\.(?:py|ts|js|rs)):(\d+)(?:-(\d+))?")
 
 
 def families(lang):
-    return seeds.families(lang) + ["srploc", "decoy"]
+    return seeds.families(lang) + ["srploc", "decoy"] + (["cloneuse", "cloneuse"] if lang == "rs" else [])
 
 
 def build(case):
@@ -85,6 +85,8 @@ def build(case):
                 cfg["srp"] = {"max_loc": max(1, loc + part.get("d", 0))}
             elif fam == "decoy":
                 sn = extra.decoy(lang, u)
+            elif fam == "cloneuse":
+                sn = extra.cloneuse(lang, u)
             elif fam == "filler":
                 sn = seeds.filler(lang, u)
             else:
@@ -301,7 +303,13 @@ EDIT_KINDS = ["blank"] * 4 + ["comment"] * 4 + ["trail"] * 3 + ["reindent"] * 2 
 def edits(draw, nfiles, lang, units, can_rename):
     """One edit; `units` (current indentation unit per file) is updated so re-indents are never no-ops."""
     kinds = [k for k in EDIT_KINDS if can_rename or k != "rename"]
-    k = draw(st.sampled_from(kinds))
+    k = draw(st.sampled_from(kinds + ["commentid"] * 5))
+    if k == "commentid":
+        # a remark that mentions a local name, placed just below a planted construct (inside the same block)
+        n = len(ed.COMMENT_TEXTS)
+        ids = [i for i, t in enumerate(ed.COMMENT_TEXTS) if "{id" in t]
+        return {"k": "comment", "f": draw(st.integers(0, nfiles - 1)), "near": draw(st.integers(0, 5)), "off": draw(st.integers(1, 3)),
+                "t": draw(st.sampled_from(ids)) + n * draw(st.integers(0, 7)), "ind": 1}
     e = {"k": k, "f": draw(st.integers(0, nfiles - 1))}
     if k in ("blank", "comment", "trail"):
         if draw(st.booleans()):
@@ -313,7 +321,7 @@ def edits(draw, nfiles, lang, units, can_rename):
         e["n"] = draw(st.integers(0, 2))
         e["w"] = draw(st.integers(0, 4))
     if k == "comment":
-        e["t"] = draw(st.integers(0, len(ed.COMMENT_TEXTS) - 1))
+        e["t"] = draw(st.integers(0, 8 * len(ed.COMMENT_TEXTS) - 1))
         e["ind"] = draw(st.integers(0, 1))
     if k == "trail":
         e["w"] = draw(st.integers(0, len(ed.TRAILING) - 1))
